@@ -28,7 +28,10 @@ Templates == <<
   [name |-> "const-sum2", t |-> "sum",  op |-> <<Tm({}, 2), Tm({}, 3)>>,            ones |-> {0},    shots |-> 2, w |-> 1],
   [name |-> "const-empty", t |-> "sum", op |-> <<>>,                                ones |-> {},     shots |-> 4, w |-> 1],
   [name |-> "const-zero-shots", t |-> "term", op |-> <<Tm({}, 6)>>,                 ones |-> {},     shots |-> 0, w |-> 1],
-  [name |-> "zero-shots", t |-> "sum",  op |-> <<Tm({0}, 2), Tm({1}, 1)>>,          ones |-> {0},    shots |-> 0, w |-> 2] >>
+  [name |-> "zero-shots", t |-> "sum",  op |-> <<Tm({0}, 2), Tm({1}, 1)>>,          ones |-> {0},    shots |-> 0, w |-> 2],
+  \* an operator is a LIST of terms: the same support may occur twice with different coefficients, constants may repeat
+  [name |-> "meas-dup",   t |-> "sum",  op |-> <<Tm({0}, 2), Tm({1}, 1), Tm({0}, 3)>>, ones |-> {0},  shots |-> 2, w |-> 2],
+  [name |-> "meas-2const", t |-> "sum", op |-> <<Tm({}, 1), Tm({0, 1}, 1), Tm({}, 2)>>, ones |-> {1}, shots |-> 3, w |-> 2] >>
 Scaled(tpl, p) == [tpl EXCEPT !.op = [i \in 1..Len(tpl.op) |-> Tm(tpl.op[i].sup, tpl.op[i].c * p)]]
 
 IsConstant(task) == \A i \in 1..Len(task.op) : task.op[i].sup = {}          \* also the empty sum
